@@ -128,7 +128,10 @@ class Standardize(PostProcessor):
         try:
             self._stats = self._stats.reshape((2, -1))
             valid = np.isclose(np.round(self._stats[0, -1]), self._stats[0, -1])
-            valid &= np.all(self._stats >= 0)
+            # sums of coefficients (first row) may be negative; the count and the sums
+            # of squares may not
+            valid &= self._stats[0, -1] >= 0
+            valid &= np.all(self._stats[1] >= 0)
         except ValueError:
             # in this case we couldn't reshape to (2, -1).
             valid = False
